@@ -88,3 +88,7 @@ Definition a64_case_ok (T : a64_tables) (c : a64_case) : bool :=
 Definition run_reported (outs : list op_rw) (run : nat * nat) : Prop :=
   exists L, (L <= fst run)%nat /\ N.of_nat (fst run + snd run - L) <= o_clc (nth L outs op_zero) /\
             forall j, (L < j < fst run + snd run)%nat -> N.land (o_flags (nth j outs op_zero)) fConsecutive <> 0.
+
+(* Prop-level reading of access_ok over a tuple *)
+Definition access_reported (acc : list (bool * bool)) (outs : list op_rw) : Prop :=
+  Forall2 (fun a o => (fst a = true -> N.land (o_flags o) fR <> 0) /\ (snd a = true -> N.land (o_flags o) fW <> 0)) acc outs.
